@@ -661,7 +661,8 @@ CORPUS = {
 }
 
 
-def run_property(prop, tier, theorems, profile, nscripts, nontrivial_rule, nontrivial_counter, theorem_hint, stated_not_proved=()):
+def run_property(prop, tier, theorems, profile, nscripts, nontrivial_rule, nontrivial_counter, theorem_hint, stated_not_proved=(),
+                 extra_stream=None):
     chk = core.Check(prop, tier)
     chk.obligations(theorems, stated_not_proved)
     rnd = core.rng(prop)
@@ -677,8 +678,17 @@ def run_property(prop, tier, theorems, profile, nscripts, nontrivial_rule, nontr
         for idx, msg in oracle(chk if m == "c" else Null(), lines, outs):
             s, e = runner.script_of(lines, idx)
             fails.append(dict(mode=m, script=lines[s:e], message=msg, observed=outs[idx], index=idx))
+    if extra_stream is not None:
+        for f in extra_stream(chk, tier):
+            chk.violation("%s [mode=%s]" % (f["message"], f["mode"]),
+                          dict(kind="history", mode=f["mode"], script=f["script"], observed=f["observed"], expected_by="spec", minimised=False,
+                               layer="world", executor_args=["twin"]))
+            fails.append(f)
+            break
     seen = set()
     for f in fails:
+        if f.get("layer") == "world":
+            continue
         k = msg_kind(f["message"])
         if k in seen:
             continue
@@ -710,6 +720,15 @@ def replay(prop, path):
     rep = runner.load_replay(path)
     script = rep["script"]
     mode = rep.get("mode", "c")
+    if rep.get("layer") == "world":
+        out = core.run_impl("world", script, mode, ["twin"])
+        for l, o in zip(script, out):
+            print("%-44s impl: %s" % (l, o))
+        if any("TWIN-DIFF" in o for o in out):
+            print("VIOLATION property=%s replay=%s" % (prop, path))
+            return 1
+        print("replay passes on the current tree")
+        return 0
     out = core.run_impl("registry", script, mode)
     bad = oracle(Null(), script, out)
     model = core.run_model("registry", script)
